@@ -24,6 +24,7 @@ EXPLANATION = (
     "(which then reaches the join routine's own terminal handler, checked likewise). addCallbacks' same-level rule is "
     "respected: the lookup's errback does not see a failure of the metadata load started by its success arm."
     ' Also: a group request in flight is cancelled only after `_stopping` was raised (R7).'
+    " Every partition consumer's start Deferred gets the group's error handler before the next consumer is started, and that handler hands every failure but a cancellation to the rejoin / stop decision."
 )
 SHARED = [('C11', ['R7'], 'the join request is given the time a rebalance may take: a slow rebalance is not mistaken for a silent broker (join, time out, back off, for ever)'), ('C16', ['R3'], 'eviction arms reset the member identity so that the rejoin can succeed'), ('C15', ['R6'], 'the leader can always complete the assignment (loads exactly the topics it was told are missing)')]
 ASSUMPTIONS = [
